@@ -509,22 +509,30 @@ SignalHandler::SignalHandler(BasicSolver &s)
                          "solver")),  //s.name())),
     repeater_(std::getenv("SW_sigpipe")) {
   solver_.set_interrupter(this);
+  MP_VERIF_SIGPOINT(100);
   signal_message_ptr_ = message_.c_str();
+  MP_VERIF_SIGPOINT(101);
   signal_message_size_ = static_cast<unsigned>(message_.size());
   std::signal(SIGINT, HandleSigInt);
   std::signal(SIGTERM, HandleSigInt);
+  MP_VERIF_SIGPOINT(102);
   stop_ = 0;
 }
 
 SignalHandler::~SignalHandler() {
   solver_.set_interrupter(0);
+  MP_VERIF_SIGPOINT(200);
   stop_ = 1;
+  MP_VERIF_SIGPOINT(201);
   handler_ = 0;
+  MP_VERIF_SIGPOINT(202);
   signal_message_size_ = 0;
 }
 
 void SignalHandler::SetHandler(InterruptHandler handler, void *data) {
+  MP_VERIF_SIGPOINT(300);
   handler_ = handler;
+  MP_VERIF_SIGPOINT(301);
   data_ = data;
 }
 
